@@ -38,10 +38,12 @@ def collect(ctx, props, plans, design_cfgs=(), refinement=False, report_deaths=F
     mismatches, inconcl = [], []
     ops = {}
     design = []
-    first = True
+    # the design-level TLC checks run on the first curated (non-cover) world
+    design_plan = next((p for p in plans if not p.get("cover")), plans[0])
     for plan in plans:
         run_ = mirrorlib.MirrorRun(ctx, plan["world"])
         run_.build()
+        first = plan is design_plan
         if first:
             for cfg, defines, what in design_cfgs:
                 res = run_.tlc(cfg, defines=defines, timeout=plan.get("tlc_timeout", 1500), allow_violation=True)
@@ -53,7 +55,6 @@ def collect(ctx, props, plans, design_cfgs=(), refinement=False, report_deaths=F
                                "generated": res.get("states", 0), "design_counterexample": cex})
                 ctx.log("TLC %s on world %s: %s distinct states%s" % (cfg, plan["world"], res.get("distinct"),
                         (", design counterexample for " + cex) if cex else ""))
-            first = False
         behs = []
         if plan.get("cover"):
             behs, res, exported = run_.cover(plan["steps"], edge=plan.get("edge", False), crash=plan.get("crash", False),
